@@ -323,9 +323,18 @@ int pika_main()
     return 0;
 }
 
+// vctl::Rng(seed) and Rng(seed+1) produce the same stream shifted by one draw (x = seed * gamma):
+// decorrelate the seeds first
+static std::uint64_t mix_seed(std::uint64_t z)
+{
+    z = (z ^ (z >> 30)) * 0xBF58476D1CE4E5B9ull + 0x632BE59BD9B4E019ull;
+    z = (z ^ (z >> 27)) * 0x94D049BB133111EBull;
+    return z ^ (z >> 31);
+}
+
 int main(int argc, char** argv)
 {
-    g_seed = argc > 1 ? std::strtoull(argv[1], nullptr, 10) : 1;
+    g_seed = mix_seed(argc > 1 ? std::strtoull(argv[1], nullptr, 10) : 1);
     g_ncases = argc > 2 ? std::atoi(argv[2]) : 100;
     pika::verif::hook.store(&hookfn, std::memory_order_release);
     // process-level watchdog: the driver task itself may get stuck inside the code under test
